@@ -34,6 +34,11 @@ CHECKS['C12'] = dict(engine='CH', category='model_checking', design='4/C12',
    text='For 16 statement skeletons covering the positions named by the property (select list, WHERE, ON, CASE operand, function FROM-argument, IN, BETWEEN, subqueries on both join sides, FROM subquery, CTE, GROUP/HAVING, UNION, INSERT values/select, UPDATE SET+WHERE, DELETE, model join, WHERE subquery) and every subset of slots turned into `?`: prepare reports exactly n parameters, execute(v1..vn) yields exactly the plan of the text with v_i inlined at the i-th `?` in textual order, no placeholder is left, and n-1 / n+1 values raise PlanningException. Unit: fill_query_params consumes values front to back without touching the caller list.',
    note='Trusted: CrossHair path bookkeeping; parametricity of the planner in placeholder values (distinct concrete values per leaf); skeleton family in harness/c12lib.py; C13 for uniform treatment of every node kind by the walker.')
 
+CHECKS['C07'] = dict(engine='CH', category='model_checking', design='4/C07',
+   technique='CrossHair symbolic execution (z3) of the captured real LiteralCompiler.render_literal_value (7 dialect names, DML+DDL), Constant.get_string and Insert.to_value on a symbolic string, read back by independent per-target literal readers',
+   text='For every string value up to the bound (any code point) the literal produced by each real output path is exactly one literal of the target whose reading is the value (so it cannot terminate early): MySQL reader for mysql, standard SQL reader for the other six names, mindsdb-dialect reader for the tree\'s own string. The value class the mindsdb dialect cannot express (odd back-slash run before a quote/end) is checked separately and reported as a KNOWN-FINDING while it fails. A concrete wiring check confirms that constants in select list / WHERE / IN / INSERT values / UPDATE SET route through the checked unit for every dialect.',
+   note='Trusted: CrossHair str model, reference readers (refs/readers.py), SQLAlchemy for non-string literals and labels, CPython number formatting. Bounds: value length <= 4 (quick) / 6 (thorough). Postgres fallback path is C17\'s.')
+
 NA_PENDING = {}
 
 
